@@ -7,7 +7,7 @@ from values import SAMPLES, cp, rust_expr, val_text
 CP_ALTS = {
     "option": ["some", "none"], "rc": ["unique", "shared"], "arc": ["unique", "shared"],
     "rcweak": ["alive", "dangling"], "arcweak": ["alive", "dangling"], "cow": ["owned", "borrowed"],
-    "mutex": ["ok", "poisoned"], "rwlock": ["ok", "poisoned"],
+    "mutex": ["ok", "poisoned"], "rwlock": ["ok", "poisoned"], "refcell": ["free", "mutborrowed"],
     "Result": ["Ok", "Err"], "Bound": ["Included", "Excluded", "Unbounded"],
 }
 
@@ -115,7 +115,7 @@ class Inst:
             return {"k": "node", "kind": t.kind, "flat": False, "active": None, "names": names, "fields": fields}
         if isinstance(t, Gate):
             a = self.alt(t) if t.kind in CP_ALTS else "open"
-            closed = a in ("none", "shared", "dangling", "poisoned")
+            closed = a in ("none", "shared", "dangling", "poisoned", "mutborrowed")
             return {"k": "gate", "g": t.kind, "alt": a, "closed": closed, "inner": self.build(t.ty)}
         if isinstance(t, Struct):
             fs = [{"f": f, "inst": self.build(f.ty)} for f in t.fields if not f.skip]
@@ -156,6 +156,9 @@ def rust_make(inst):
         if g == "cell":
             return f"core::cell::Cell::new({e})"
         if g == "refcell":
+            if a == "mutborrowed":
+                # a leaked `RefMut` guard leaves the cell mutably borrowed for ever (safe Rust)
+                return f"{{ let c = core::cell::RefCell::new({e}); std::mem::forget(c.borrow_mut()); c }}"
             return f"core::cell::RefCell::new({e})"
         if g in ("rc", "arc"):
             ty = "std::rc::Rc" if g == "rc" else "std::sync::Arc"
@@ -265,7 +268,8 @@ class SnapGen:
             if g == "cell":
                 return f"{{ let {v} = &({expr}).get();\n{inner(v)}}}\n"
             if g == "refcell":
-                return f"{{ let {v}g = ({expr}).borrow(); let {v} = &*{v}g;\n{inner(v)}}}\n"
+                # plain memory read (the cell may be in the leaked-guard "mutably borrowed" state)
+                return f"{{ let {v} = unsafe {{ &*({expr}).as_ptr() }};\n{inner(v)}}}\n"
             if g in ("rcweak", "arcweak"):
                 return (f"match ({expr}).upgrade() {{ Some({v}r) => {{ out.push((format!(\"{{}}#\", {path}), \"alive\".into())); "
                         f"let {v} = &*{v}r;\n{inner(v)}}} None => out.push((format!(\"{{}}#\", {path}), \"dangling\".into())), }}\n")
